@@ -40,13 +40,18 @@ def part_index(part):
         return 0
 
 
+class Pallet(Batch):
+    """A user-defined kind of batch (subclassing Batch is ordinary use of the library)."""
+
+
 class Gen(PartGenerator):
     """PartGenerator that logs every leaf part it creates; optionally emits batches (sizes cycle through a list)."""
 
-    def __init__(self, prefix, value, batch, log):
+    def __init__(self, prefix, value, batch, log, cls=None):
         super().__init__(prefix, value)
         self.batch = batch
         self.log = log
+        self.cls = cls or Batch
 
     def generate_part_helper(self, name, counter):
         b = self.batch
@@ -66,7 +71,7 @@ class Gen(PartGenerator):
                     inner.parts.append(p)
                 outer.parts.append(inner)
             return outer
-        batch = Batch(name)
+        batch = self.cls(name)
         for i in range(b):
             p = Part(f'{name}.{i}', self.value)
             self.log.append(p)
@@ -179,8 +184,8 @@ class Model:
         k = d['k']
         up = [self.D[u] for u in d.get('up', [])]
         if k == 'S':
-            o = Source(d['n'], Gen(d['n'] + 'p', d.get('val', 0), d.get('batch'), self.generated), d['c'],
-                       num(d['budget']))
+            o = Source(d['n'], Gen(d['n'] + 'p', d.get('val', 0), d.get('batch'), self.generated,
+                                   Pallet if d.get('pallet') else None), d['c'], num(d['budget']))
             self.budget[d['n']] = num(d['budget'])
         elif k == 'P':
             o = WP(d['n'], up, d['c'], value=d.get('v0', 0), resources_for_processing=d.get('res'))
